@@ -11,6 +11,7 @@ import (
 	"path/filepath"
 	"regexp"
 	"runtime"
+	"sort"
 	"strconv"
 	"strings"
 	"sync"
@@ -27,14 +28,18 @@ import (
 type C20Op struct {
 	Op  string // "new", "insert", "commit", "abort"
 	U   int    // which open upload (taken modulo the number of open uploads)
-	Adv int64  // seconds the clock advances before the step (>= 0)
+	Adv int64  // seconds the clock advances before the step (>= 0 unless the history has Skew)
 }
 
 // C20Hist is a sequential history on one database.
 type C20Hist struct {
 	Start   int64 // unix seconds of the first instant
 	ZoneSec int   // the clock reports instants in a fixed zone with this offset (the day must still be the UTC day)
-	Ops     []C20Op
+	// Skew: the clock may also step backwards (two instances sharing the database whose
+	// clocks disagree, or a clock set back). Creating an upload may then be refused, but an
+	// ID is still never handed out twice and committed uploads stay as they are.
+	Skew bool
+	Ops  []C20Op
 }
 
 var c20IDRE = regexp.MustCompile(`^(\d{8})\.([1-9]\d*)$`)
@@ -72,7 +77,9 @@ func c20Result(id string, i int) *benchfmt.Result {
 }
 
 // c20IDsOK checks form, distinctness and per-day order of ids (creation order).
-func c20IDsOK(v *vcase.Verdict, ids []string, days []string) {
+func c20IDsOK(v *vcase.Verdict, ids []string, days []string) { c20IDsOK2(v, ids, days, true) }
+
+func c20IDsOK2(v *vcase.Verdict, ids []string, days []string, monotone bool) {
 	seen := map[string]int{}
 	lastN := map[string]uint64{}
 	for i, id := range ids {
@@ -91,7 +98,7 @@ func c20IDsOK(v *vcase.Verdict, ids []string, days []string) {
 		}
 		seen[id] = i
 		n, _ := strconv.ParseUint(m[2], 10, 64)
-		if p, ok := lastN[m[1]]; ok && n <= p {
+		if p, ok := lastN[m[1]]; ok && n <= p && monotone {
 			v.Failf("upload %d got ID %s after number %d was already used on that day (all ids: %v)", i, id, p, ids)
 			return
 		}
@@ -115,7 +122,8 @@ func c20CheckHist(c C20Hist) (v vcase.Verdict) {
 	}
 	var opens []open
 	var ids, days []string
-	var committed []int // creation indices of committed uploads with >= 1 record
+	var committed []int   // creation indices of committed uploads with >= 1 record
+	nrec := map[int]int{} // creation index -> records inserted before the commit
 	aborted, midnights := 0, 0
 	closeAll := func() {
 		for _, o := range opens {
@@ -125,9 +133,12 @@ func c20CheckHist(c C20Hist) (v vcase.Verdict) {
 	}
 	defer closeAll()
 	for i, op := range c.Ops {
-		if op.Adv < 0 {
+		if op.Adv < 0 && !c.Skew {
 			v.Failf("malformed case")
 			return
+		}
+		if op.Adv < 0 {
+			v.Label("clock_steps_back")
 		}
 		if c20UTCDay(cur+op.Adv) != c20UTCDay(cur) && len(ids) > 0 {
 			midnights++
@@ -136,6 +147,10 @@ func c20CheckHist(c C20Hist) (v vcase.Verdict) {
 		switch op.Op {
 		case "new":
 			u, err := d.NewUpload(context.Background())
+			if err != nil && c.Skew {
+				v.Label("upload_refused_under_clock_skew")
+				continue
+			}
 			if err != nil {
 				v.Failf("step %d: NewUpload failed in a sequential history: %v (ids so far %v)", i, err, ids)
 				return
@@ -166,6 +181,7 @@ func c20CheckHist(c C20Hist) (v vcase.Verdict) {
 				}
 				if o.n > 0 {
 					committed = append(committed, o.idx)
+					nrec[o.idx] = o.n
 				}
 				opens = append(opens[:j], opens[j+1:]...)
 			case "abort":
@@ -183,9 +199,24 @@ func c20CheckHist(c C20Hist) (v vcase.Verdict) {
 	}
 	aborted += len(opens)
 	closeAll()
-	c20IDsOK(&v, ids, days)
+	c20IDsOK2(&v, ids, days, !c.Skew)
 	if v.Violation != "" {
 		return
+	}
+	// every committed upload still has all its records (whatever was created, refused,
+	// aborted or committed after it)
+	for _, ci := range committed {
+		q := d.Query("upload:" + ids[ci])
+		got := 0
+		for q.Next() {
+			got++
+		}
+		err := q.Err()
+		q.Close()
+		if err != nil || got != nrec[ci] {
+			v.Failf("committed upload %s has %d records at the end, %d were inserted (err %v; all ids %v)", ids[ci], got, nrec[ci], err, ids)
+			return
+		}
 	}
 	// Only committed uploads are listed, most recent first; aborted ones keep
 	// their (burnt) ID.
@@ -206,6 +237,14 @@ func c20CheckHist(c C20Hist) (v vcase.Verdict) {
 				want = append(want, ids[i])
 			}
 		}
+	}
+	if c.Skew {
+		// creation order is not (day, N) order any more: compare as sets ordered by (day, N) descending
+		key := func(id string) string {
+			m := c20IDRE.FindStringSubmatch(id)
+			return m[1] + fmt.Sprintf("%020s", m[2])
+		}
+		sort.Slice(want, func(a, b int) bool { return key(want[a]) > key(want[b]) })
 	}
 	if strings.Join(listed, " ") != strings.Join(want, " ") {
 		v.Failf("ListUploads lists %v, want the committed uploads with records, most recent first: %v (all ids %v)", listed, want, ids)
@@ -258,6 +297,7 @@ func c20GenHist(t *rapid.T) C20Hist {
 	// one history in three stays within a few minutes (many uploads on one
 	// day, numbers with several digits); the others jump across midnights
 	sameDay := rapid.IntRange(0, 2).Draw(t, "sameday") == 0
+	c.Skew = !sameDay && rapid.IntRange(0, 3).Draw(t, "skew") == 0
 	n := rapid.IntRange(1, 40).Draw(t, "nops")
 	for i := 0; i < n; i++ {
 		op := rapid.SampledFrom([]string{"new", "new", "new", "insert", "insert", "commit", "commit", "abort"}).Draw(t, "op")
@@ -266,6 +306,9 @@ func c20GenHist(t *rapid.T) C20Hist {
 			adv = rapid.SampledFrom([]int64{0, 0, 0, 1, 2, 60}).Draw(t, "adv")
 		} else {
 			adv = rapid.SampledFrom([]int64{0, 0, 0, 1, 1, 2, 60, 3599, 3600, 7200, 43200, 86399, 86400, 86401, 172800}).Draw(t, "adv")
+		}
+		if c.Skew && rapid.IntRange(0, 3).Draw(t, "stepback") == 0 {
+			adv = rapid.SampledFrom([]int64{-1, -60, -3600, -43200, -86400, -86401, -172800}).Draw(t, "advback")
 		}
 		c.Ops = append(c.Ops, C20Op{Op: op, U: rapid.IntRange(0, 7).Draw(t, "u"), Adv: adv})
 	}
